@@ -843,6 +843,9 @@ func C14(ctx *core.Ctx) error {
 	c14ImportGraphs(rn, r.Fork(7))
 	c14GroupingGraphs(rn, r.Fork(8))
 	c14ModKinds(rn, r.Fork(9))
+	c14UpPaths(rn, r.Fork(10))
+	c14Singletons(rn, r.Fork(11))
+	c14SubImports(rn, r.Fork(12))
 	ctx.Extra["worker_restarts"] = rn.w.Restarts
 	return nil
 }
